@@ -57,7 +57,7 @@ def project(arg, x, steps, elementwise, token_ok):
         except ValueError:
             ev.update(c=[1], u=[0])
             return ev
-    ev['re'] = 1 if np.array_equal(np.real(z1), np.real(x)) and not np.iscomplexobj(x) else 0
+    ev['re'] = 1 if np.array_equal(np.real(z1), np.real(x)) else 0          # the real part of the argument is bitwise that of x
     delta = (z1 - x).ravel()
     S = [np.broadcast_to(np.asarray(s, dtype=complex), x.shape).ravel() for s in steps]
     nz = np.flatnonzero(delta != 0)
@@ -71,10 +71,16 @@ def project(arg, x, steps, elementwise, token_ok):
             ev['c'] = [1]
             main = [(i, [code]) for i, code in sorted(common or ())]
     else:
-        cands = []
+        # a coordinate is an index along the FIRST axis of x (for a 2-d x every row x[i] is a batch of points that moves
+        # together: the documented vectorised use of Jacobian); all moved elements of a row must share (step, unit)
+        rowlen = int(x.size // x.shape[0]) if x.ndim > 1 else 1
+        rows = {}
         for c in nz:
-            ev['c'].append(int(c) + 1)
-            cands.append(dict(_matches(delta[c], [s[c] for s in S])))
+            rows.setdefault(int(c) // rowlen, []).append(set(_matches(delta[c], [s[c] for s in S])))
+        cands = []
+        for r in sorted(rows):
+            ev['c'].append(r + 1)
+            cands.append(dict(set.intersection(*rows[r])))
         if cands:
             for i in sorted(set.intersection(*[set(d) for d in cands])):
                 main.append((i, [d[i] for d in cands]))
@@ -87,7 +93,8 @@ def project(arg, x, steps, elementwise, token_ok):
                 ev['jc'] = [1]
                 sets = [{i for i, code in _matches(d2[c], [s[c] for s in S]) if code == 1} for c in range(d2.size)]
             else:
-                ev['jc'] = [int(c) + 1 for c in nz2]
+                rowlen = int(x.size // x.shape[0]) if x.ndim > 1 else 1
+                ev['jc'] = sorted({int(c) // rowlen + 1 for c in nz2})
                 sets = [{i for i, code in _matches(d2[c], [s[c] for s in S]) if code == 1} for c in nz2]
             jparts = sorted(set.intersection(*sets)) or [0]
     if ev['c']:
